@@ -7,7 +7,7 @@
     universally quantified functions; their encoders only have to satisfy the round-trip hypotheses
     written in each statement (instantiated at the end of the file). *)
 From Coq Require Import List ZArith String Lia.
-From Thunder Require Import Lib.Json Args.Model Args.Spec Args.Codec Args.Proofs Args.ProofsReject Args.ProofsInst Args.ProofsSubst Args.ProofsTotal Args.ProofsDoc Args.ProofsPaginated Gen.ArgParsers Args.Table Args.ModelBuilder Args.ProofsBuilder Args.ProofsRange.
+From Thunder Require Import Lib.Json Args.Model Args.Spec Args.Codec Args.Proofs Args.ProofsReject Args.ProofsInst Args.ProofsSubst Args.ProofsTotal Args.ProofsDoc Args.ProofsPaginated Gen.ArgParsers Args.Table Args.ModelBuilder Args.ProofsBuilder Args.ProofsRange Args.ProofsEnum.
 Import ListNotations.
 Local Open Scope Z_scope.
 
@@ -268,6 +268,32 @@ Theorem scalar_table_covered :
 Proof. exact Table.scalar_table_covered. Qed.
 Print Assumptions scalar_table_covered.
 
+(** * Enums registered with aliases
+
+    The enum table is a name -> value map and need not be injective (schema.Enum accepts several names for one
+    value).  For every table - no hypothesis on it - every registered name, written as a literal or supplied
+    through a variable (both reach the parser as the same JSON string), is accepted and arrives as its value; two
+    names of one value arrive as the same Go value; a name the table does not have is refused; and so for every
+    element of a list.  (Inside input objects and at any depth: [every_rendering_parses], whose [renders]
+    allows any registered name.) *)
+Theorem every_registered_enum_name_arrives_as_its_value :
+  forall b64 tdec xdec vars z names,
+    (forall n v, lookup n names = Some v ->
+       vtj vars (LEnum n) = Ok (VStr n) /\ parse b64 tdec xdec (TEnum z names) (VStr n) = Ok v) /\
+    (forall n1 n2 v, lookup n1 names = Some v -> lookup n2 names = Some v ->
+       parse b64 tdec xdec (TEnum z names) (VStr n1) = parse b64 tdec xdec (TEnum z names) (VStr n2)) /\
+    (forall n, lookup n names = None -> parse b64 tdec xdec (TEnum z names) (VStr n) = Err EArgs) /\
+    (forall ns vs, Forall2 (fun n v => lookup n names = Some v) ns vs ->
+       parse b64 tdec xdec (TList (TEnum z names)) (VArr (map VStr ns)) = Ok (GList vs)).
+Proof.
+  exact (fun b64 tdec xdec vars z names =>
+           conj (enum_name_transport b64 tdec xdec vars z names)
+             (conj (enum_aliases_same_value b64 tdec xdec z names)
+                (conj (enum_unregistered_refused b64 tdec xdec z names)
+                      (enum_list_transport b64 tdec xdec z names)))).
+Qed.
+Print Assumptions every_registered_enum_name_arrives_as_its_value.
+
 (** * "Integers within the float64-exact range": the exact boundary *)
 
 (** Both transports hand the argument parser the float64 nearest to the integer written ([wire_num]:
@@ -490,3 +516,14 @@ Example ex_range :
   parse b64_dec time_dec text_dec (TInt I64) (wire_num (2 ^ 53 + 2)) = Ok (GInt (2 ^ 53 + 2)) /\
   parse b64_dec time_dec text_dec (TInt I64) (wire_num (- 2 ^ 63)) = Ok (GInt (- 2 ^ 63)).
 Proof. vm_compute. repeat split; reflexivity. Qed.
+
+(** an enum with aliases at the start, in the middle and at the end of the alphabet: all seven names arrive *)
+Definition ex_shade : ty :=
+  TEnum (GInt 0) [("AAA_DARK", GInt 0); ("BLACK", GInt 0); ("GRAY", GInt 1); ("GREY", GInt 1); ("SLATE", GInt 1);
+                  ("WHITE", GInt 2); ("ZINC_WHITE", GInt 2)]%string.
+Example ex_enum_aliases :
+  wf_ty ex_shade /\
+  parse b64_dec time_dec text_dec (TStruct [("s", TList ex_shade); ("o", TOpt ex_shade)])%string
+    (VObj [("s", VArr (map VStr ["GREY"; "GRAY"; "SLATE"; "BLACK"; "AAA_DARK"; "ZINC_WHITE"; "WHITE"]))])%string
+  = Ok (GStruct [("s", GList [GInt 1; GInt 1; GInt 1; GInt 0; GInt 0; GInt 2; GInt 2]); ("o", GInt 0)])%string.
+Proof. split; [|vm_compute; reflexivity]. cbn. repeat constructor; cbn; intuition discriminate. Qed.
